@@ -21,8 +21,21 @@ COMMANDS = ["true", "echo hi", "sleep 0", "echo $HOME done", "/bin/sh -c 'exit 0
 ODD_COMMANDS = ["", " ", " echo hi", "\ttrue"]
 CRONS = ["* * * * *", "0 1 * * *", "*/5 * * * *", "0 0 1 1 *", "TZ=UTC * * * * *", "CRON_TZ=Asia/Tokyo 0 9 * * 1-5"]
 ODD_CRONS = ["bad cron", "TZ=UTC", "CRON_TZ=UTC", "60 * * * *", "", "@daily", ", * * * *", "* * * *", "TZ=Nowhere/Land * * * * *"]
-SIGNALS = ["SIGTERM", "SIGINT", "SIGKILL", "SIGUSR1"]
+SIGNALS = ["SIGTERM", "SIGINT", "SIGKILL", "SIGUSR1", "SIGUSR2", "SIGHUP", "SIGQUIT", "SIGCONT", "SIGSTOP", "SIGWINCH", "SIGALRM", "SIGPIPE"]
 ODD_SIGNALS = ["TERM", "", "sigterm", "SIGFOO", "9"]
+
+
+def signal_spelling(r):
+    """a signalOnStop value in one of the spellings people write: canonical, lower case, without the SIG prefix, mixed case,
+    numeric, with surrounding blanks, garbage, empty"""
+    c = r.choice(SIGNALS)
+    bare = c[3:]
+    return r.choice([
+        c, c, c, c.lower(), bare, bare.lower(), c.capitalize(), "Sig" + bare.capitalize(), "sig" + bare, "SIG" + bare.lower(), bare.capitalize(),
+        " " + c, c + " ", " " + c.lower() + " ", "\t" + bare, c + "\n",
+        r.choice(["9", "15", "2", "0", "-9", "SIG9", "SIG15"]),
+        r.choice(["SIGFOO", "SIG", "foo", c + "2", "TERM SIG", "SIG" + c, "sig", "SIGRTMIN", "SIGRTMIN+1", "KILL -9", c + "," + c, "signal"]),
+        ""])
 EXPECTED = ["ok", "re:^o.*$", "1", "re:[0-9]+", ""]
 ODD_EXPECTED = ["re:[(", "re:", "re:*", "re:(?P<x", "re:a{2,1}"]
 ENVKEYS = ["VERIF_A", "VERIF_B", "VERIF_LONG_NAME_1"]
@@ -103,7 +116,7 @@ def gen_step(r, i, prev, funcs, handler=False):
     if r.random() < 0.15:
         items.append(("repeatPolicy", M(repeat=True, intervalSec=r.randint(1, 5))))
     if r.random() < 0.25:
-        items.append(("signalOnStop", r.choice(SIGNALS)))
+        items.append(("signalOnStop", r.choice(SIGNALS) if r.random() < 0.5 else signal_spelling(r)))
     if r.random() < 0.15:
         items.append(("output", "OUT_%d" % i))
     if r.random() < 0.1:
@@ -285,6 +298,13 @@ CORPUS = [
     ("call-ok", M(functions=[M(name="f", params="x y", command="echo $x $y")], steps=[M(name="s", call=M(function="f", args=M(x=1, y="b")))])),
     ("handler", M(handlerOn=M(exit=M(command="echo bye"), failure=M(executor="mail")), steps=[STEP])),
     ("env-bad-key", M(env=M(("", "v")), steps=[STEP])),
+    ("sig-canonical", M(steps=[M(name="s", command="true", signalOnStop="SIGINT")], handlerOn=M(exit=M(command="true", signalOnStop="SIGUSR1")))),
+    ("sig-lower", M(steps=[M(name="s", command="true", signalOnStop="sigint")])),
+    ("sig-noprefix", M(steps=[M(name="s", command="true", signalOnStop="INT")])),
+    ("sig-noprefix-lower-handler", M(steps=[STEP], handlerOn=M(cancel=M(command="true", signalOnStop="usr1")))),
+    ("sig-blanks", M(steps=[M(name="s", command="true", signalOnStop=" SIGTERM ")])),
+    ("sig-numeric", M(steps=[M(name="s", command="true", signalOnStop="9")])),
+    ("sig-empty", M(steps=[M(name="s", command="true", signalOnStop="")])),
     ("env-nonstring-key", M(env=("m", [(1, "v")]), steps=[STEP])),
 ]
 
@@ -344,7 +364,14 @@ def monitor(chk, cid, entry, res, replay_case, dist):
             chk.violation("C13:accepted-step-with-nothing-to-execute",
                           "accepted DAG has a step with no command, executor type or sub-workflow", replay_case)
         if not s["sigOK"]:
-            chk.violation("C13:accepted-invalid-signal", "accepted DAG has an invalid signalOnStop", replay_case)
+            # the stop path (scheduler.Node.signal) calls unix.SignalNum on the STORED spelling and sends the result
+            try:
+                stored = bytes.fromhex(s.get("signal", "")).decode("utf-8", "replace")
+            except ValueError:
+                stored = "?"
+            chk.violation("C13:accepted-signal-name-the-stop-path-cannot-resolve",
+                          "accepted DAG stores signalOnStop %r, which unix.SignalNum (the call the stop path uses) resolves to %s: "
+                          "a stop would deliver no signal to that step" % (stored, s.get("stopSigNum", 0)), replay_case)
     if not f.get("cronOK", True):
         chk.violation("C13:accepted-unparseable-schedule", "accepted DAG carries a schedule robfig/cron cannot parse", replay_case)
     js = f.get("json", "ok")
@@ -354,6 +381,20 @@ def monitor(chk, cid, entry, res, replay_case, dist):
     ev = f.get("evalConds", "ok")
     if ev != "ok":
         chk.violation("C13:precondition-evaluation-" + ev.replace(":", "-in-"), "evaluating an accepted precondition crashes: " + ev, replay_case)
+
+
+def signal_values(t, acc=None):
+    """the signalOnStop strings of a tree (any depth: steps and handlers)"""
+    acc = set() if acc is None else acc
+    if is_map(t):
+        for k, v in t[1]:
+            if isinstance(k, str) and k.lower() == "signalonstop" and isinstance(v, str):
+                acc.add(v)
+            signal_values(v, acc)
+    elif isinstance(t, list):
+        for c in t:
+            signal_values(c, acc)
+    return acc
 
 
 def mutate_text(r, txt):
@@ -444,6 +485,8 @@ def run(chk, replay):
             parts = l.split("|")
             model[parts[0]] = dict(p.split("=", 1) for p in parts[1:] if "=" in p)
     dist, kinds_seen, dis = {}, {}, 0
+    sig_stats = {"accepted_canonical": 0, "accepted_other": 0, "distinct_spellings_planted": 0}
+    planted_sigs = set()
     for l in lines:
         cid = l["id"]
         o = results.get(cid)
@@ -463,6 +506,12 @@ def run(chk, replay):
                     chk.oblige("correspondence:load:%s:%s" % (cid, e), False,
                                "impl=%s model=%s yaml=%s" % (got, want, o.get("yaml", "")[:600]))
         chk.nontrivial.add(l["tree"])
+        ly = o["res"].get("LoadYAML") or {}
+        if ly.get("cls") == "ok":
+            fs = ly["facts"]
+            for st in (fs.get("steps") or []) + list((fs.get("handlers") or {}).values()):
+                if st.get("signal"):
+                    sig_stats["accepted_canonical" if st["sigOK"] else "accepted_other"] += 1
     for cid, kind, t, raw in cases:
         for k in kind.split("+"):
             kinds_seen[k] = kinds_seen.get(k, 0) + 1
@@ -519,10 +568,15 @@ def run(chk, replay):
                 chk.evaluations += 1
                 monitor(chk, c["id"], e, res, c, rdist)
         chk.stats["raw_outcomes"] = rdist
-    chk.stats.update({"tree_outcomes": dist, "mutation_kinds": kinds_seen, "tree_cases": len(lines), "raw_cases": len(raw_cases or [])})
+    for cid, kind, t, raw in cases:
+        if t is not None:
+            planted_sigs |= signal_values(t)
+    sig_stats["distinct_spellings_planted"] = len(planted_sigs)
+    chk.stats.update({"signals": sig_stats, "tree_outcomes": dist, "mutation_kinds": kinds_seen, "tree_cases": len(lines), "raw_cases": len(raw_cases or [])})
     chk.rule = ("grammar of valid definitions (schedule string/list/map, env map/list, params, functions+call, run, executor string/map with nested "
                 "config, handlers, preconditions, mail/smtp, policies) with 0-3 mutations (type confusion, deletion, duplication, nesting, nulls, "
-                "key case/unknown/non-string keys, odd strings: TZ= prefixes, bad cron, bad regexp, bad signal, empty/space commands) through "
+                "key case/unknown/non-string keys, odd strings: TZ= prefixes, bad cron, bad regexp, empty/space commands; signalOnStop of steps and handlers "
+                "in canonical SIGxxx for 12 signals and in lower / mixed case, without the SIG prefix, numeric, with surrounding blanks, garbage, empty) through "
                 "LoadYAML, LoadMetadata, LoadWithoutEval, Load; plus the corpus of theorem witnesses; plus a raw stream (random bytes, YAML "
                 "punctuation soup, byte/span/tag mutations of rendered definitions) through the non-evaluating entries; non-trivial = distinct trees")
     chk.samples = [{"id": l["id"], "yaml": results[l["id"]].get("yaml", "")[:300],
